@@ -589,6 +589,10 @@ func genHistories(e *emitter, r *hc.Rand, n int) {
 		for i := 0; i < 2+g.r.Intn(2); i++ {
 			pool = append(pool, &V{K: "ptr", Elem: g.strct(1 + g.r.Intn(2))})
 		}
+		if g.r.Chance(1, 2) {
+			// distinct types that share their NAME (and field names) with different tags; Taggable maps with the same keys and other tags
+			pool = append(pool, &V{K: "ptr", Elem: g.local()}, &V{K: "ptr", Elem: g.local()}, g.tmap(1))
+		}
 		var h []HistStep
 		for i := 0; i < 4+g.r.Intn(4); i++ {
 			var c Cfg
